@@ -30,7 +30,7 @@ func init() {
 			"the IdP checks endpoint and pre-existing parameters, SAMLRequest inflating to exactly the document, RelayState presence and value, SigAlg naming the algorithm and the signature verifying with crypto/rsa or crypto/ecdsa over SAMLRequest=..[&RelayState=..]&SigAlg=.. rebuilt from the raw URL octets under the published certificate; distinct = shape hash (builder, relay class, endpoint, key config, algorithm, outcome)",
 		Directed:   c14Directed,
 		Run:        c14Run,
-		MustHit:    []string{"builder=BuildAuthURLRedirect", "builder=BuildLogoutURLRedirect", "builder=BuildAuthURL", "builder=AuthRedirect", "relay_absent", "relay_with_space", "relay_with_reserved", "endpoint_with_query", "signed_redirect", "unsigned_redirect", "ec_signer", "unsupported_algorithm_configured", "decorated_document", "second_redirect_on_same_sp", "incoming_request_with_query"},
+		MustHit:    []string{"builder=BuildAuthURLRedirect", "builder=BuildLogoutURLRedirect", "builder=BuildAuthURL", "builder=AuthRedirect", "relay_absent", "relay_with_space", "relay_with_reserved", "endpoint_with_query", "signed_redirect", "unsigned_redirect", "ec_signer", "unsupported_algorithm_configured", "decorated_document", "second_redirect_on_same_sp", "incoming_request_with_query", "caller_document_already_signed"},
 		RandomRuns: map[string]int{"quick": 6000, "thorough": 50000},
 	})
 }
@@ -109,30 +109,47 @@ func c14Measure(r *core.Run, o *Out, builder, relay string, signReq bool, decor 
 		r.Fault("endpoint_reassigned_between_document_and_url")
 	}
 	defer func() { sp.IdentityProviderSSOURL, sp.IdentityProviderSLOURL = o.Cfg.IdPSSOURL, o.Cfg.IdPSLOURL }()
+	docSigned := t.Int(3, "c14.docsigned") == 1
+	if docSigned && (builder == "BuildAuthURLRedirect" || builder == "BuildLogoutURLRedirect") {
+		r.Probe("caller_document_already_signed")
+	}
 	var doc *etree.Document
 	var u string
-	var docStr string
+	var docStr, docAfter string
 	signingApplies := false
 	out := world.Guard(func() error {
 		var err error
 		switch builder {
 		case "BuildAuthURLRedirect":
-			doc, err = sp.BuildAuthRequestDocumentNoSig()
+			if docSigned {
+				// the caller hands over a document that already carries an enveloped signature
+				sp.SignAuthnRequests = true
+				doc, err = sp.BuildAuthRequestDocument()
+				sp.SignAuthnRequests = signReq
+			} else {
+				doc, err = sp.BuildAuthRequestDocumentNoSig()
+			}
 			if err != nil {
 				return err
 			}
 			decorate(doc, decor)
 			move(false)
+			docStr, _ = doc.WriteToString() // the document as supplied
 			u, err = sp.BuildAuthURLRedirect(relay, doc)
 			signingApplies = signReq
 		case "BuildLogoutURLRedirect":
 			endpoint = o.Cfg.IdPSLOURL
-			doc, err = sp.BuildLogoutRequestDocumentNoSig(world.DrawNonEmpty(t, "c14.nameid"), "s1")
+			if docSigned {
+				doc, err = sp.BuildLogoutRequestDocument(world.DrawNonEmpty(t, "c14.nameid"), "s1")
+			} else {
+				doc, err = sp.BuildLogoutRequestDocumentNoSig(world.DrawNonEmpty(t, "c14.nameid"), "s1")
+			}
 			if err != nil {
 				return err
 			}
 			decorate(doc, decor)
 			move(true)
+			docStr, _ = doc.WriteToString() // the document as supplied
 			u, err = sp.BuildLogoutURLRedirect(relay, doc)
 			signingApplies = true
 		case "BuildAuthURLFromDocument":
@@ -142,6 +159,7 @@ func c14Measure(r *core.Run, o *Out, builder, relay string, signReq bool, decor 
 			}
 			decorate(doc, decor)
 			move(false)
+			docStr, _ = doc.WriteToString() // the document as supplied
 			u, err = sp.BuildAuthURLFromDocument(relay, doc)
 		case "BuildAuthURL":
 			u, err = sp.BuildAuthURL(relay)
@@ -169,7 +187,7 @@ func c14Measure(r *core.Run, o *Out, builder, relay string, signReq bool, decor 
 			return err
 		}
 		if doc != nil {
-			docStr, err = doc.WriteToString()
+			docAfter, _ = doc.WriteToString()
 		}
 		return err
 	})
@@ -189,6 +207,11 @@ func c14Measure(r *core.Run, o *Out, builder, relay string, signReq bool, decor 
 	if out.Panic != "" || !out.OK() {
 		ctx["err"], ctx["panic"] = fmt.Sprint(out.Err), out.Panic
 		r.Fail("produce", "C14/build-failed/"+builder, ctx)
+		return
+	}
+	if doc != nil && docAfter != docStr {
+		ctx["document_before"], ctx["document_after"] = trunc(docStr, 600), trunc(docAfter, 600)
+		r.Fail("purity", "C14/caller-document-modified/"+builder, ctx)
 		return
 	}
 	// ---- the IdP only sees the URL
